@@ -28,7 +28,7 @@ MANIFEST = {
             "AArch64 dynamic alignment / SA register is an open finding (C07-a64-dynalign). The model follows fixes/C07-1..4.patch; until they are "
             "applied the check reports those four classes on /repo with concrete replays.",
 }
-MODS = ["AsmjitVerif.Props.C07"]
+MODS = ["AsmjitVerif.Props.C07", "AsmjitVerif.Props.C07Api"]
 
 ARCHN = {0: "x86", 1: "x64", 2: "a64"}
 CCS = {0: [0, 1, 2, 3, 4, 5, 6, 7, 16, 17, 18], 1: [0, 1, 2, 3, 4, 5, 6, 7, 16, 17, 18, 32, 33], 2: [0, 1, 3, 7, 16, 17, 18, 32, 33]}
@@ -36,12 +36,17 @@ BAD_CCS = {0: [8, 30, 32, 33], 1: [8, 30, 31], 2: []}
 ATTR_BITS = [0x10, 0x20, 0x80, 0x10000, 0x20000, 0x40000, 0x80000, 0x100000, 0x1]
 # witness of the open finding C07-a64-dynalign (DESIGN.md section 7, #12)
 WITNESS_A64_DA = "frame 2 0 0 0 0 80000 100 0 0 - 0 100 64 0 0 255"
+WITNESS_A64_SA = "frame 2 16 0 0 0 0 0 0 0 - 0 8 8 8 16 15"
 KNOWN_KEY_A64_DA = "a64-no-dynalign-no-sa-reg"
 CORPUS = [
     WITNESS_A64_DA,
+    WITNESS_A64_SA,
     "frame 0 1 0 12 0 c8 0 0 0 - 0 40 8 0 0 255",          # x86-32 alignment 8 (fixes/C07-1)
     "frame 2 16 0 0 0 30 f0 0 0 - 0 100 16 0 0 255",       # a64 light-call 16-byte vector saves (fixes/C07-2)
     "frame 1 16 0 0 0 0 0 ff 0 0,0,ff,0,8,16,8,8,8,16,8,8 0 0 0 0 0 255",   # x86 mask saves (fixes/C07-3)
+    "seq 1 0 0 0 f008 0 0 0 f008,0,0,0 aat:10,sls:40,sla:16",   # custom convention without rbp + preserved FP (fixes/C07-5)
+    "seq 0 0 0 0 0 ff 0 0 e8,ff,0,0 aat:40,sls:8,sla:4",        # stale kAlignedVecSR on a 4-aligned stack (fixes/C07-6)
+    "seq 2 0 0 0 180000 0 0 0 - aat:10,sls:40,ssa:29",          # a64: stack arguments through the preserved x29 (fixes/C07-7)
     "frame 1 0 0 0 0 f008 0 0 0 - 0 40 8 0 0 255",
     "frame 1 0 1 0 10 f0c8 ffc0 0 0 - 0 100 32 32 16 255",
     "frame 1 0 0 0 0 f008 0 0 0 - 0 40 64 0 0 255",
@@ -214,7 +219,8 @@ def known_key(op, impl_line, reason):
     if arch == 2 and impl_line.startswith("ok "):
         f = impl_line[3:].split(" | ")[0].split()
         min_dyn, final = int(f[7]), int(f[10])
-        if final >= min_dyn or int(f[3]) != int(f[2]):
+        fp_sa = int(f[3]) == 29 and (int(f[1]) & 0x10)        # the preserved frame pointer as SA register is supported (C07-7)
+        if final >= min_dyn or (int(f[3]) != int(f[2]) and not fp_sa):
             return KNOWN_KEY_A64_DA
     return "frame:%s:%s" % (reason.split()[0] if reason else "?", ARCHN[arch])
 
@@ -346,7 +352,7 @@ def run(res):
                 why = "changed a field other than dirty masks / SA register"
             elif len(t) > 7:
                 why = t[7]
-            elif t[4] != "-" and (int(t[4]) == (31 if arch == 2 else 4) or int(t[4]) >= (32 if arch == 2 else 16)):
+            elif t[4] != "-" and int(t[4]) >= (32 if arch == 2 else 16):
                 why = "selected register %s as SA register" % t[4]
             if why and mon[i] is None:
                 mon[i] = "BAD update_func_frame " + why.replace(" ", "-")
